@@ -524,6 +524,14 @@ func (e *Env) trSelector(n *ast.SelectorExpr) TV {
 				ty = types.NewMap(tyInt, tyString)
 			case "(Array Int Slice)":
 				ty = types.NewMap(tyInt, types.NewSlice(types.Typ[types.Byte]))
+			case "(Array Int Int)":
+				// $warn.sink: which *log.Logger a line was handed to
+				ty = types.NewMap(tyInt, types.Typ[types.UnsafePointer])
+				if lp := e.w.P.AllTypes["log"]; lp != nil {
+					if o := lp.Scope().Lookup("Logger"); o != nil {
+						ty = types.NewMap(tyInt, types.NewPointer(o.Type()))
+					}
+				}
 			}
 			return TV{e.heap(e.state, name, so), ty}
 		}
